@@ -267,7 +267,12 @@ class Term(NamedTuple):
         if isinstance(self.index_, str):
             return f"self['{self.name}', {self.index_}]"
 
-        # Otherwise, access as a regular internal variable
+        # Otherwise, access as a regular internal variable. A name with a
+        # leading underscore needs the instance dictionary: inside the class
+        # body Python would mangle `self.__x` to `self._Model__x`
+        if self.name.startswith('_') and not self.name.endswith('__'):
+            return f"self.__dict__['_{self.name}']" + code[len(self.name):]
+
         return 'self._' + code
 
 
